@@ -307,6 +307,70 @@ func runC08(rc *RunCtx) {
 			return
 		}
 	}
+	if plain := sc.Fault == FStall || sc.Fault == FEOF || sc.Fault == FIOErr || sc.Fault == FOversize; follow == nil && plain && !rc.Scen.Has("prefix") && rc.Scen.Chance(1, 150) {
+		// the faulty exchange comes after a long history of healthy ones on the same client and connection (request
+		// counters, statistics, buffers and whatever else a client accumulates must not change how a fault is reported)
+		hist := genHistory(rc, sc, historyLen(rc.Scen), false)
+		calls := append(append([]*C1(nil), hist...), sc)
+		// an oversize reply that ends leaves the connection usable: then it is met after each exchange of the history,
+		// at every position of whatever the client keeps between calls
+		var faulty []int
+		if sc.Fault == FOversize && !sc.Endless && rc.Scen.Chance(1, 2) {
+			calls = nil
+			for _, h := range hist {
+				bad := *sc
+				bad.Then = nil
+				faulty = append(faulty, len(calls)+1)
+				calls = append(calls, h, &bad)
+			}
+			calls = append(calls, sc)
+		}
+		first := RunC1Long(rc, chainCalls(calls))
+		rc.Desc = sc.describe()
+		rc.Desc["exchanges_before_on_this_client"] = len(calls) - 1
+		rc.Nontrivial = true
+		base := fmt.Sprintf("client=%s|fault=%s|after_long_history", sc.Kind, sc.Fault)
+		if len(faulty) > 0 && first.Panic == nil {
+			rc.Probe("oversize_reply_after_each_exchange_of_a_long_history")
+			for _, i := range faulty {
+				o := outcomeOf(first, i)
+				if o == nil {
+					rc.Violate("hang", base, "call %d of the run did not return (hang=%v overstep=%v)", i+1, first.Hang, first.OverStep)
+					return
+				}
+				checkC08(rc, calls[i], o)
+				if len(rc.Violations) > 0 {
+					return
+				}
+			}
+			hist = nil // the healthy exchanges in between are C07's business
+			for i := 0; i < len(calls)-1; i += 2 {
+				if o := outcomeOf(first, i); o == nil || o.Err != nil {
+					return
+				}
+			}
+			if main := outcomeOf(first, len(calls)-1); main != nil {
+				checkC08(rc, sc, main)
+			}
+			return
+		}
+		if first.Panic != nil {
+			rc.Violate("panic", base, "panic in %s: %s (after %d exchanges)", first.Panic.Task, first.Panic.Value, len(first.Next))
+			return
+		}
+		failed, _ := historyTrouble(hist, first)
+		rc.Fault("fault_after_long_history", failed == "")
+		if failed != "" {
+			return // healthy exchanges are C07's business
+		}
+		main := outcomeOf(first, len(hist))
+		if main == nil {
+			rc.Violate("hang", base, "Do did not return (hang=%v overstep=%v) after %d healthy exchanges", first.Hang, first.OverStep, len(hist))
+			return
+		}
+		checkC08(rc, sc, main)
+		return
+	}
 	if follow == nil && sc.Fault == FOversize && sc.Endless && rc.Scen.Chance(1, 2) {
 		// the flood goes on, and the application tries again on the same client
 		c := *sc
